@@ -50,6 +50,68 @@ def gen_case(rng, n_ops=40):
     return ops
 
 
+def _f32(x):
+    import struct
+    return struct.unpack("<f", struct.pack("<f", x))[0]
+
+
+def _unit(rng, dim, prefix_mass):
+    """random unit vector with the given share of its squared norm in the first 32 coordinates"""
+    p = min(32, dim)
+    a = [rng.gauss(0, 1) for _ in range(p)] + [0.0] * (dim - p)
+    b = [0.0] * p + [rng.gauss(0, 1) for _ in range(dim - p)]
+    na = math.sqrt(sum(x * x for x in a)) or 1.0
+    nb = math.sqrt(sum(x * x for x in b)) or 1.0
+    if dim == p:
+        prefix_mass = 1.0
+    return [math.sqrt(prefix_mass) * x / na + math.sqrt(1 - prefix_mass) * y / nb for x, y in zip(a, b)]
+
+
+def gen_boundary_case(rng, n_probes=14):
+    """C07: one cached query with a full result list; vectors are inserted just inside / just outside its distance
+    boundary, with the difference to the query spread over the first 32 coordinates (what the implementation's
+    pre-filter looks at) and the tail in varying proportions"""
+    dim = rng.choice([8, 32, 33, 40, 64, 96])
+    metric = rng.choice(["l2", "cos", "ip"])
+    q = _unit(rng, dim, rng.choice([0.05, 0.5, 0.95]))
+    if metric == "l2":
+        sc = rng.choice([0.5, 1.0, 3.0])
+        q = [x * sc for x in q]
+    q = [_f32(x) for x in q]
+    k = rng.choice([1, 3, 5])
+    w = rng.choice([0.02, 0.1, 0.3, 0.7, 1.2]) if metric != "l2" else rng.choice([0.05, 0.4, 1.0, 2.5])
+    ds = sorted([w] + [w * rng.random() for _ in range(k - 1)])
+    res = ",".join("%d:%d" % (i + 1, f32bits(d)) for i, d in enumerate(ds))
+    ops = ["cfg cap=4 thr=0.95", "store scope=0 q=%s k=%d res=%s gen=-" % (vb(q), k, res), "len"]
+    nq = math.sqrt(sum(x * x for x in q))
+    for _ in range(n_probes):
+        delta = rng.choice([-0.3, -0.05, -5e-3, -1e-3, -2e-4, 2e-4, 1e-3, 5e-3, 0.05, 0.3])
+        t = max(w * (1 + delta), 1e-6)
+        u = _unit(rng, dim, rng.choice([0.0, 0.02, 0.3, 0.7, 0.98, 1.0]))
+        # orthogonalise u against q
+        c = sum(a * b for a, b in zip(u, q)) / (nq * nq)
+        u = [a - c * b for a, b in zip(u, q)]
+        nu = math.sqrt(sum(x * x for x in u)) or 1.0
+        u = [x / nu for x in u]
+        if metric == "l2":
+            # distance exactly t: part along q (changes the norm), part orthogonal
+            al = rng.choice([0.0, 0.5, -0.5]) * t
+            be = math.sqrt(max(t * t - al * al, 0.0))
+            v = [a + al * a / nq + be * b for a, b in zip(q, u)]
+        else:
+            cosv = max(-1.0, min(1.0, 1.0 - t))
+            sinv = math.sqrt(max(0.0, 1 - cosv * cosv))
+            v = [cosv * a / nq + sinv * b for a, b in zip(q, u)]
+            if rng.random() < 0.3:
+                s_ = math.sqrt(rng.choice([0.985, 1.015]))      # inside the accepted normalisation band
+                v = [x * s_ for x in v]
+        v = [_f32(x) for x in v]
+        ops.append("inv_insert v=%s metric=%s" % (vb(v), metric))
+        ops.append("len")
+        ops.append("store scope=0 q=%s k=%d res=%s gen=-" % (vb(q), k, res))
+    return ops
+
+
 def oracle(raw, ann, res):
     fails = []
     cap = int(re.search(r"cap=(\d+)", ann[0]).group(1))
